@@ -87,7 +87,15 @@ func runC09(s *core.Sim, tier string) RunInfo {
 			return r
 		})
 	}
-	if err := w.StartClient(w.PeerIDs(all...), all, p2p.WithRequestTimeout[p2p.ClientParameters](time.Second)); err != nil {
+	// sometimes nobody is connected yet when Head(WithTrustedHead) is called: the peer tracker is
+	// empty and the request falls back to the trusted peers - whose answers are still only to be
+	// believed as far as they verify against the trusted head
+	connect := all
+	if withTrusted && s.Tape.Coin("no-tracked-peers", 1, 3) {
+		connect = nil
+		s.Probe("trusted-head-with-empty-tracker")
+	}
+	if err := w.StartClient(w.PeerIDs(all...), connect, p2p.WithRequestTimeout[p2p.ClientParameters](time.Second)); err != nil {
 		s.Aborted = "client start: " + err.Error()
 		return RunInfo{}
 	}
